@@ -9,6 +9,7 @@ import (
 	"os"
 	"strconv"
 	"sync"
+	"sync/atomic"
 	"testing"
 	"time"
 
@@ -49,10 +50,10 @@ func TestVerifC35PeersRace(t *testing.T) {
 		t.Fatal(err)
 	}
 	p.peers.Clock = fc // the membership table's TTLs follow the fake clock
-	var cbs sync.WaitGroup
+	var cbRunning atomic.Int64 // callbacks in flight (a WaitGroup would need its Add before the goroutine exists)
 	p.RegisterUpdatedPeersCallback(func() { // what the sharder and the sampler factory do when membership changes
-		cbs.Add(1)
-		defer cbs.Done()
+		cbRunning.Add(1)
+		defer cbRunning.Add(-1)
 		_, _ = p.GetPeers()
 	})
 	ctx := context.Background()
@@ -96,7 +97,9 @@ func TestVerifC35PeersRace(t *testing.T) {
 		wg.Wait()
 		// deliveries run on goroutines of their own: give them a moment, then wait for the callbacks they started
 		time.Sleep(2 * time.Millisecond)
-		cbs.Wait()
+		for i := 0; cbRunning.Load() != 0 && i < 2000; i++ {
+			time.Sleep(time.Millisecond)
+		}
 		fc.Advance(3 * PeerEntryTimeout)
 		_, _ = p.GetPeers()
 		evals++
